@@ -34,7 +34,7 @@ def run(chk):
     lines += gen_poly.make_cases(chk.seed * 31 + 5, ncase // 5, maxdim=2, nobj=4, steps=12, pq=0.3, pobs=0.35, start=ncase)
     # families aimed at the lazy representation (pending rows, stale flags): each query is the first thing
     # that happens to a copy of the object in its lazy state; an equal twin built by another route is compared
-    lines += gen_poly.make_lazy_cases(chk.seed * 7 + 11, 260 if chk.quick else 5000, maxdim=3)
+    lines += gen_poly.make_lazy_cases(chk.seed * 7 + 11, 700 if chk.quick else 8000, maxdim=3)
     # boundary family: constraints / congruences / directions whose hyperplanes pass through a known vertex
     lines += gen_poly.make_touch_cases(chk.seed * 13 + 5, 120 if chk.quick else 2500, maxdim=3)
     # points and closure points with different divisors (matching of closure points, strong minimization of NNC)
